@@ -205,6 +205,7 @@ class World:
         e = Expl("eq", Qty(phys, Unit(dim, fac, base)), Label(True, base), attached=(o.key(attr)), fresh_obj=False,
                  source=Opaque("source", base))
         e.owner, e.attr = o, attr
+        self.register(I, e)
         if allow_empty:
             return ExplU(emp, e)
         return e
@@ -220,6 +221,7 @@ class World:
             fac = fn(".factor", R); I.eng.assume(fac > 0)
             e = Expl("eq", Qty(fn(".phys", R), Unit(dim, fac, base)), Label(True, base), attached=o.key(attr), fresh_obj=False)
             e.owner, e.attr = o, attr
+            self.register(I, e)
             return e if kinds == "Q" else ExplU(fn(".empty", B), e)
         if kinds in ("E|H", "H"):
             fac = fn(".factor", R); I.eng.assume(fac > 0)
@@ -234,10 +236,16 @@ class World:
                 pf = z3.Function(base + ".prefix", I_, I_, R)
             e = Expl("ehq", DF(vec, Unit(dim, fac, base)), Label(True, base), attached=o.key(attr), fresh_obj=False)
             e.owner, e.attr = o, attr
+            self.register(I, e)
             I.eng.assume(vec.n >= 1)       # an hourly attribute holds at least one hour (an empty result is an EmptyExplainableObject)
             if kinds == "H": return e
             return ExplU(fn(".empty", B), e)
         raise Unsupported(f"schema kind {kinds}")
+
+    def register(self, I, e):
+        """remember the physical content of every model value handed to the function under verification (frame check)"""
+        snap = e.value.phys if e.kind == "eq" else e.value.vec
+        I.eng.run.cache.setdefault("model_values", []).append((e, snap))
 
     # ------------------------------------------------------------------ hooks used by the interpreter
     def global_name(self, I, n):
